@@ -4,6 +4,7 @@ import (
 	"fmt"
 	"os"
 	"sort"
+	"strings"
 	"sync"
 	"time"
 
@@ -41,6 +42,7 @@ func jInt32s(xs []int32) jv.V {
 }
 
 func c10(c *Ctx) {
+	c10ASScripts(c)
 	realm := "TEST.GOKRB5"
 	// ---------- (a) request fields under every combination of settings ----------
 	k := kdc.New(realm)
@@ -551,6 +553,146 @@ func c10(c *Ctx) {
 			kk.Close()
 		}
 	}
+}
+
+// c10ASScripts: the control flow of client.ASExchange against scripted KDC answers (model/ASExchange.v): which requests
+// carry a PA-ENC-TIMESTAMP, how many are sent, how the exchange ends, and whether the client assumes pre-authentication
+// afterwards (seen at the first request of a following login).
+func c10ASScripts(c *Ctx) {
+	realm := "TEST.GOKRB5"
+	k := kdc.New(realm)
+	k.AddPrincipal([]string{"testuser1"}, "passwordvalue", 2)
+	if err := k.Serve(); err != nil {
+		c.Notes = append(c.Notes, "c10ASScripts: simulated KDC did not start: "+err.Error())
+		return
+	}
+	defer k.Close()
+	alphabet := []int{0, -1, 25, 24, 68, 6}
+	toModel := map[int]int64{0: 0, -1: 1, 25: 2, 24: 3, 68: 4, 6: 5}
+	var scripts [][]int
+	for _, a := range alphabet {
+		scripts = append(scripts, []int{a})
+		for _, b := range alphabet {
+			scripts = append(scripts, []int{a, b})
+		}
+	}
+	scripts = append(scripts, []int{68, 68, 68, 68, 68, 68, 68}, []int{68, 68, 68, 68, 68, 68, 0}, []int{68, 68, 68, 68, 68, 68, 25, 0},
+		[]int{68, 68, 25, 0}, []int{68, 24, 0}, []int{68, 68, 68, 6})
+	n := 30
+	if !c.Quick() {
+		n = 300
+	}
+	for i := 0; i < n; i++ {
+		l := 3 + c.R.Intn(5)
+		sc := make([]int, l)
+		for j := range sc {
+			sc[j] = []int{68, 68, 68, 25, 24, 0, 6, -1}[c.R.Intn(8)]
+		}
+		scripts = append(scripts, sc)
+	}
+	for si, sc := range scripts {
+		for _, assume0 := range []bool{false, true} {
+			if c.Quick() && si >= 42 && (si%2 == 0) == assume0 {
+				continue
+			}
+			et := allEtypes[si%len(allEtypes)]
+			if assume0 {
+				// a pre-emptive timestamp is computed without the KDC's hints: it verifies only where the default
+				// string-to-key parameters are the ones in force (the simulated KDC uses 4 iterations for AES)
+				et = []int32{23, 16}[si%2]
+			}
+			cfg := testConfig(realm, []string{k.Addr}, []int32{et})
+			for r := 1; r <= 8; r++ {
+				cfg.Realms = append(cfg.Realms, config.Realm{Realm: fmt.Sprintf("REFERRED%d.GOKRB5", r), KDC: []string{k.Addr}})
+			}
+			cl := client.NewWithPassword("testuser1", realm, "passwordvalue", cfg, client.DisablePAFXFAST(true), client.AssumePreAuthentication(assume0))
+			sc := sc
+			k.SetASScript(func(n int) int {
+				if n < len(sc) {
+					return sc[n]
+				}
+				return 0
+			})
+			n0 := len(k.Requests)
+			var err error
+			p, _ := guard(func() { err = cl.Login() })
+			reqs := asOnly(k.Requests[n0:])
+			k.SetASScript(nil)
+			var flags []jv.V
+			hasTS := func(rq kdc.Request) bool {
+				for _, pa := range rq.AS.PAData {
+					if pa.PADataType == 2 {
+						return true
+					}
+				}
+				return false
+			}
+			for _, rq := range reqs {
+				flags = append(flags, jv.Bool(hasTS(rq)))
+			}
+			sent := len(reqs)
+			kind := int64(0)
+			if err != nil {
+				switch {
+				case strings.Contains(err.Error(), "maximum number of client referrals exceeded"):
+					kind = 4
+				case strings.Contains(err.Error(), "Networking_Error"):
+					kind = 2
+				case strings.Contains(err.Error(), "KDC_Error"):
+					kind = 1
+				default:
+					kind = 3
+				}
+			}
+			// does the client assume pre-authentication now?  the first request of another login tells
+			n1 := len(k.Requests)
+			guard(func() { cl.Login() })
+			assumeAfter := false
+			if later := asOnly(k.Requests[n1:]); len(later) > 0 {
+				assumeAfter = hasTS(later[0])
+			}
+			cl.Destroy()
+			var js []jv.V
+			for _, x := range sc {
+				js = append(js, jv.I(toModel[x]))
+			}
+			in := jv.L(jv.L(js...), jv.I(0), jv.Bool(assume0))
+			if p {
+				c.Case("as_exchange", in, jv.Panic())
+			} else {
+				c.Case("as_exchange", in, jv.Ok(jv.I(kind), jv.L(flags...), jv.Bool(assumeAfter)))
+			}
+			inp := map[string]interface{}{"script": fmt.Sprint(sc), "assume": assume0, "etype": et}
+			c.Check(!p, "no panic", "as-script-panic", "", inp)
+			c.Check(sent <= 8, "a login ends after a bounded number of AS requests whatever the KDCs answer", "as-requests-unbounded", fmt.Sprint(sent), inp)
+			// direct oracles: a demand for pre-authentication is answered by a request carrying a timestamp; a correct
+			// AS-REP as the KDC's last word means success
+			allOK := true
+			for qi := 0; qi < sent && qi < len(sc); qi++ {
+				if (sc[qi] == 25 || sc[qi] == 24) && qi+1 < sent {
+					c.Check(hasTS(reqs[qi+1]), "a pre-authentication demand is answered with a PA-ENC-TIMESTAMP", "as-preauth-not-answered", fmt.Sprint(qi), inp)
+				}
+				if sc[qi] != 0 && sc[qi] != 25 && sc[qi] != 24 && sc[qi] != 68 {
+					allOK = false
+				}
+			}
+			if allOK && sent > 0 && (sent > len(sc) || sc[sent-1] == 0) {
+				c.Check(err == nil, "login succeeds when the last answer is a correct AS-REP", "as-script-login-fails", fmt.Sprint(err), inp)
+			}
+			c.Count(fmt.Sprintf("as-script:requests=%d", sent))
+			c.Count(fmt.Sprintf("as-script:outcome=%d", kind))
+		}
+	}
+}
+
+func asOnly(rs []kdc.Request) []kdc.Request {
+	var o []kdc.Request
+	for _, r := range rs {
+		if r.Kind == "AS" {
+			o = append(o, r)
+		}
+	}
+	return o
 }
 
 func init() { props["C10"] = c10 }
